@@ -5,5 +5,7 @@ CONSTANTS Chans = {0, 1}
  OffResetsPause = TRUE
  CountEntries = FALSE
  MaxRemovals = 1
+ Paths = {"A", "B"}
+ RejectedSetsBase = FALSE
 INVARIANTS C06_behaviour C06_bodies C06_rejected_noop C06_newdir C06_stop_closes C06_effect C20_files C20_state_shape
 CHECK_DEADLOCK FALSE
